@@ -231,7 +231,20 @@ def run_case(rec, case):
             os.renames(p, hold + p[len(base):])
         cur = {p: f for p, f in reg.items() if p not in late} if late else reg
         arrive_at = case.get("late_after", 0)
-        for idx, (ts, filters, via) in enumerate(case["stamps"]):
+        stamps = list(case["stamps"])
+        if case.get("handler_info") and layout.end_style == "disc" and not case.get("extra_stamps_done"):
+            # a direct name hit (timestamp = start of a file), then a timestamp inside the part of that
+            # file's real coverage that its name does not show
+            wide = [f for f in files if f["t1"] > f["t0"]]
+            # preferably files whose real end lies nearer to another file's start than to their own
+            wide.sort(key=lambda f: min([abs((g["t0"] - f["t1"]).total_seconds()) for g in files if g is not f]
+                                        or [1e18]))
+            for f in wide[:4]:
+                stamps.append([f["t0"].isoformat(), None, "closest"])
+                stamps.append([f["t1"].isoformat(), None, "closest"])
+                stamps.append([(f["t1"] - dt.timedelta(seconds=1)).isoformat(), None, "closest"])
+            rec.count("closest.direct_hit_then_inside", (len(stamps) - len(case["stamps"])) // 3)
+        for idx, (ts, filters, via) in enumerate(stamps):
             if late and idx == arrive_at:
                 for p in late:
                     os.renames(hold + p[len(base):], p)
@@ -241,7 +254,8 @@ def run_case(rec, case):
                 continue
             check_lookup(rec, fs, cur, layout, files, dt.datetime.fromisoformat(ts), filters,
                          set(names), periods, case, via, shared=shared,
-                         sub_case=dict(case, stamps=case["stamps"][:idx + 1]) if late else None)
+                         sub_case=dict(case, stamps=stamps[:idx + 1], extra_stamps_done=True)
+                         if (late or len(stamps) > len(case["stamps"])) else None)
     finally:
         shutil.rmtree(base, ignore_errors=True)
         shutil.rmtree(base + "-late", ignore_errors=True)
